@@ -40,7 +40,14 @@ def seqs(n, fd, ld, top, in_loop_body, nested_loop, lead_block=False,
                                   nested_loop, bunch):
                     build(remaining - size, prefix + [blk], True)
     build(n, [], True)
-    if lead_block:
+    if in_loop_body and bunch == "leadloop" and ld > 0:
+        # the body of a loop starts with an inner loop: both loops share
+        # their start event ("continue"-style back edges)
+        for size in range(1, n):
+            for inner in seqs(size, fd, ld - 1, False, True, True, False,
+                              bunch):
+                build(n - size, [('loop', inner)], True)
+    if lead_block and bunch is True:
         # "bunched" logic: the branch starts with a fork block
         for size in range(2, n + 1):
             for blk in blocks(size, fd, 0, False, False, False, bunch):
@@ -128,6 +135,18 @@ def F_bunched(nmax, nmin=1):
     for n in range(nmin, nmax + 1):
         base = set(seqs(n, 3, 2, True, False, False))
         for s in seqs(n, 3, 2, True, False, False, False, True):
+            if s not in base:
+                out.append(name(s))
+    return out
+
+
+def F_leadloop(nmax):
+    """extension beyond F: a loop body may begin with an inner loop (the two
+    loops share their start event)"""
+    out = []
+    for n in range(1, nmax + 1):
+        base = set(seqs(n, 3, 2, True, False, False))
+        for s in seqs(n, 3, 2, True, False, False, False, "leadloop"):
             if s not in base:
                 out.append(name(s))
     return out
@@ -247,6 +266,41 @@ def skeletons(n, blocks=3, chain=False, min_breaks=0):
         if _nbreaks(s) < min_breaks:
             continue
         out.append(name(s))
+    return out
+
+
+def branch_count_family(full=False):
+    """alternatives after one event that differ in how often a type occurs:
+    S X xor[and[..]|and[..]|and[..]] Z with multisets over {A,B,C} (counts
+    <= 2): pairs with equal support and different counts, each with every
+    third multiset (quick) / all triples (full)"""
+    import itertools as it
+    E_ = lambda n: ('ev', n)  # noqa: E731
+    ms = []
+    for size in (2, 3):
+        for c in it.combinations_with_replacement("ABC", size):
+            if max(c.count(x) for x in c) <= 2 and len(set(c)) >= 2:
+                ms.append(c)
+    ms += [("A", "A"), ("B", "B")]
+    ms = sorted(set(ms))
+
+    def mk(alts):
+        brs = []
+        for a in alts:
+            brs.append((('and', tuple((E_(x),) for x in a)),))
+        return (E_('S'), E_('X'), ('xor', tuple(brs)), E_('Z'))
+    out = []
+    if full:
+        for tr in it.combinations(ms, 3):
+            out.append(mk(tr))
+    else:
+        for a, b in it.combinations(ms, 2):
+            if set(a) == set(b):
+                for c in ms:
+                    if c not in (a, b) and set(c) != set(a):
+                        out.append(mk((a, b, c)))
+    for a, b in it.combinations(ms, 2):
+        out.append(mk((a, b)))
     return out
 
 
